@@ -72,6 +72,11 @@ class InternalErrors(Observer):
                                              t_us, signature='%s:%s' % (kind, sig)))
 
 
+def _content(state_modes):
+    """ What a StateModes record holds (its serialisation carries the current clock). """
+    return {k: v for k, v in state_modes.serial().items() if k not in ('now', 'now_monotonic')}
+
+
 class StateGraph(Observer):
     """ C02: published Supvisors states follow the documented graph; Master-driven states need a RUNNING Master;
     a non-Master enters them only after its Master has. """
@@ -87,6 +92,32 @@ class StateGraph(Observer):
 
     def on_boot(self, sim, inst):
         self.last[(inst.nick, inst.incarnation)] = 'OFF'
+        # what a Slave follows is the STORED state of its Master: a stored state & modes record must never be replaced by
+        # an older one of the same peer (hand-shake snapshots and publications travel by different paths)
+        sm = inst.supvisors.state_modes
+        obs = self
+        orig = sm.on_instance_state_event
+        applied = {}   # identifier -> (StateModes object, stamp of the latest event applied to it)
+
+        def on_instance_state_event(identifier, event):
+            obj = sm.instance_state_modes.get(identifier)
+            pre = _content(obj) if obj is not None else None
+            res = orig(identifier, event)
+            if obj is None or sm.instance_state_modes.get(identifier) is not obj or identifier == sm.local_identifier:
+                return res
+            stamp = event.get('now_monotonic') if isinstance(event, dict) else None
+            if stamp is None or _content(obj) == pre:
+                return res
+            known = applied.get(identifier)
+            last = known[1] if known is not None and known[0] is obj else None
+            obs.probes['state_event_applied'] = obs.probes.get('state_event_applied', 0) + 1
+            if last is not None and stamp < last:
+                obs.violate('older-state-applied', {'inst': inst.nick, 'peer': identifier, 'stamp': stamp, 'latest': last,
+                                                    'state': event.get('fsm_statename')},
+                            'older-state-and-modes-applied')
+            applied[identifier] = (obj, stamp if last is None else max(last, stamp))
+            return res
+        sm.on_instance_state_event = on_instance_state_event
 
     def on_wire(self, sim, rec):
         # latest state publication of each peer delivered to (and handled by) each instance, with the state the receiver
